@@ -161,7 +161,7 @@ def judge(run: Run, case: dict, res: dict, stats: dict):
     rec = {"case": cid, "files": res.get("layout", {}).get("files"), "tlc_case": {k: case[k] for k in case if k not in ("enc", "tree")}}
     if res["error"]:
         die(f"C08: concretiser/harness failure on {cid}:\n{res['error']}")
-    if res.get("runtime") is not None and case["kind"] != "root" and res["runtime"] != (case.get("guard", "none") == "none"):
+    if res.get("runtime") is not None and case["kind"] != "root" and res["runtime"] != (case.get("guard", "none") in ("none", "stubsig")):
         die(f"C08: concretisation of {cid}: runtime={res['runtime']} but the descriptor's guard is {case.get('guard')}")
     dref = res.get("docref")
     if dref:
